@@ -29,6 +29,11 @@ Inductive beh := BOk | BRaise | BBase.
 Inductive irop := IIns (n o : nat) | IRem (n : nat).
 Inductive envop := EIR (i : irop) | EReg (n : nat).
 Record fnspec := mkfn { fbeh : beh; feff : list irop }.
+(* [ONoDict] is the entry kind of every "odd" sys.modules value whose `.__dict__` cannot be used:
+   None (import blocked), an object without __dict__, a module whose attribute access raises
+   (e.g. a LazyLoader module whose deferred import fails: ModuleNotFoundError / RuntimeError /
+   ValueError on ANY attribute, __dict__ included).  The guarded lookup yields no module-provided
+   glue: the visit is the identity on module glue, a pending built-in for that name still runs. *)
 Inductive objspec := ONoDict | OMod (g : option fnspec).
 
 Record cfg := mkcfg { c_guarded : bool; c_locked : bool; c_pop : bool }.
